@@ -17,8 +17,10 @@ import (
 	"fmt"
 	"os"
 	"path/filepath"
+	"syscall"
 
 	"verif/ref/crashfs/ctl"
+	"verif/ref/crashfs/rawfs"
 )
 
 // FileMode is os.FileMode.
@@ -32,37 +34,74 @@ func MkdirAll(path string, perm FileMode) error {
 	return ctl.For(path).Step("MkdirAll", path, func() error { return os.MkdirAll(path, perm) })
 }
 
-// WriteFile is os.WriteFile as three steps.
+// WriteFile is os.WriteFile as three steps. The steps use open(2)/write(2)/
+// close(2) directly (no os.File: its finalizer registration takes a
+// process-wide runtime lock, see rawfs) and report errors as os.WriteFile
+// does, as *os.PathError.
 func WriteFile(name string, data []byte, perm FileMode) error {
 	c := ctl.For(name)
 	k := c.NextWriteOrdinal()
 	half := len(data) / 2
-	if err := c.Step(fmt.Sprintf("WriteFile#%d.create", k), name, func() error {
-		f, err := os.OpenFile(name, os.O_WRONLY|os.O_CREATE|os.O_TRUNC, perm)
-		if err != nil {
-			return err
-		}
-		return f.Close()
+	if err := c.Step(label(k, 0), name, func() error {
+		return openWrite(name, syscall.O_WRONLY|syscall.O_CREAT|syscall.O_TRUNC, perm, nil)
 	}); err != nil {
 		return err
 	}
-	app := func(b []byte) func() error {
-		return func() error {
-			f, err := os.OpenFile(name, os.O_WRONLY|os.O_APPEND, 0)
-			if err != nil {
-				return err
-			}
-			_, err = f.Write(b)
-			if err1 := f.Close(); err1 != nil && err == nil {
-				err = err1
-			}
-			return err
-		}
-	}
-	if err := c.Step(fmt.Sprintf("WriteFile#%d.half", k), name, app(data[:half])); err != nil {
+	if err := c.Step(label(k, 1), name, func() error {
+		return openWrite(name, syscall.O_WRONLY|syscall.O_APPEND, 0, data[:half])
+	}); err != nil {
 		return err
 	}
-	return c.Step(fmt.Sprintf("WriteFile#%d.rest", k), name, app(data[half:]))
+	return c.Step(label(k, 2), name, func() error {
+		return openWrite(name, syscall.O_WRONLY|syscall.O_APPEND, 0, data[half:])
+	})
+}
+
+var subStep = [3]string{"create", "half", "rest"}
+
+func label(k, sub int) string {
+	if k < len(labels) {
+		return labels[k][sub]
+	}
+	return fmt.Sprintf("WriteFile#%d.%s", k, subStep[sub])
+}
+
+var labels = func() (t [16][3]string) {
+	for k := range t {
+		for s := range subStep {
+			t[k][s] = fmt.Sprintf("WriteFile#%d.%s", k, subStep[s])
+		}
+	}
+	return
+}()
+
+func openWrite(name string, flag int, perm FileMode, b []byte) error {
+	var fd int
+	var err error
+	for {
+		fd, err = syscall.Open(name, flag|syscall.O_CLOEXEC, uint32(perm.Perm()))
+		if err != syscall.EINTR {
+			break
+		}
+	}
+	if err != nil {
+		return &os.PathError{Op: "open", Path: name, Err: err}
+	}
+	for len(b) > 0 {
+		n, err := syscall.Write(fd, b)
+		if err == syscall.EINTR {
+			continue
+		}
+		if err != nil {
+			syscall.Close(fd)
+			return &os.PathError{Op: "write", Path: name, Err: err}
+		}
+		b = b[n:]
+	}
+	if err := syscall.Close(fd); err != nil {
+		return &os.PathError{Op: "close", Path: name, Err: err}
+	}
+	return nil
 }
 
 // Symlink is os.Symlink as one step.
@@ -82,10 +121,10 @@ func Rename(oldpath, newpath string) error {
 // path that does not exist) is a single step.
 func RemoveAll(path string) error {
 	c := ctl.For(path)
-	if fi, err := os.Lstat(path); err == nil && fi.IsDir() {
-		if ents, err := os.ReadDir(path); err == nil && len(ents) > 0 {
-			for i, e := range ents {
-				child := filepath.Join(path, e.Name())
+	if k, _ := rawfs.Lkind(path); k == rawfs.Dir {
+		if names, err := rawfs.List(path); err == nil && len(names) > 0 {
+			for i, n := range names {
+				child := filepath.Join(path, n)
 				if err := c.Step(fmt.Sprintf("RemoveAll.entry#%d", i+1), child, func() error { return os.RemoveAll(child) }); err != nil {
 					return err
 				}
